@@ -264,6 +264,87 @@ def dateUTCS (args : List Arg) : Outcome × List Nat :=
   | (l, none) => (.threw, l)
   | (l, some vs) => (.ret (dateUTC vs), l)
 
+-- §15.9.1.7–.9 local time ------------------------------------------------------------------
+
+/-- the host zone as ES5 sees it: LocalTZA (ms, constant) and DaylightSavingTA(t) (ms, a function of the UTC
+    time value only).  `us2007` / `eu1996` are the current daylight rules of America/New_York and Europe/London,
+    written from the rule text (second Sunday of March 2:00 local to first Sunday of November 2:00 local;
+    last Sunday of March 1:00 UTC to last Sunday of October 1:00 UTC). -/
+inductive Zone where
+  | fixed (offsetSec : Int)
+  | us2007
+  | eu1996
+deriving DecidableEq, Repr
+
+def LocalTZA : Zone → Int
+  | .fixed o => o * 1000
+  | .us2007 => -18000000
+  | .eu1996 => 0
+
+/-- day number of the n-th (1-based) Sunday of month m (0-based) in year y -/
+def nthSunday (y m n : Int) : Int :=
+  let first := MakeDay y m 1
+  first + (7 - (first + 4) % 7) % 7 + 7 * (n - 1)
+/-- day number of the last Sunday of a 31-day month m in year y -/
+def lastSunday31 (y m : Int) : Int :=
+  let last := MakeDay y m 31
+  last - (last + 4) % 7
+
+def DaylightSavingTA (z : Zone) (t : Int) : Int :=
+  let y := YearFromTime t
+  match z with
+  | .fixed _ => 0
+  | .us2007 =>
+    -- 2:00 local standard time = 07:00 UTC; 2:00 local daylight time = 06:00 UTC
+    if nthSunday y 2 2 * 86400000 + 25200000 ≤ t ∧ t < nthSunday y 10 1 * 86400000 + 21600000 then 3600000 else 0
+  | .eu1996 =>
+    if lastSunday31 y 2 * 86400000 + 3600000 ≤ t ∧ t < lastSunday31 y 9 * 86400000 + 3600000 then 3600000 else 0
+
+/-- §15.9.1.9 -/
+def LocalTime (z : Zone) (t : Int) : Int := t + LocalTZA z + DaylightSavingTA z t
+def UTC (z : Zone) (t : Int) : Int := t - LocalTZA z - DaylightSavingTA z (t - LocalTZA z)
+
+/-- the local getters and getYear (B.2.4), getTimezoneOffset (§15.9.5.26) -/
+def observeLocal (z : Zone) (tv : TV) : List TV :=
+  match tv with
+  | none => List.replicate 10 none
+  | some t =>
+    let l := LocalTime z t
+    [some (YearFromTime l), some (MonthFromTime l), some (DateFromTime l), some (WeekDay l), some (HourFromTime l),
+     some (MinFromTime l), some (SecFromTime l), some (msFromTime l), some (YearFromTime l - 1900), some ((t - l) / 60000)]
+
+inductive LSetter | ms | sec | min | hour | date | month | year | year2
+deriving DecidableEq, Repr
+
+def LSetter.base : LSetter → Setter
+  | .ms => .ms | .sec => .sec | .min => .min | .hour => .hour | .date => .date | .month => .month | .year => .year | .year2 => .year
+def LSetter.arity : LSetter → Nat
+  | .year2 => 1 | k => k.base.arity
+
+/-- §15.9.5.28–.40 (local variants) and B.2.5 setYear: t = LocalTime(this time value) (setFullYear and setYear: +0
+    when it is NaN), recompose as for the UTC variant, then TimeClip(UTC(·)). -/
+def setLocal (z : Zone) (k : LSetter) (tv : TV) (args : List FV) : TV :=
+  let args := args.take k.arity
+  let loc : TV := match tv with
+    | some t => some (LocalTime z t)
+    | none => if k = .year ∨ k = .year2 then some 0 else none
+  let raw : Option Int := match k with
+    | .year2 => match loc, argOr args 0 0 with
+      | some t, some y => some (MakeDate (MakeDay (fullYear y) (MonthFromTime t) (DateFromTime t)) (TimeWithinDay t))
+      | _, _ => none
+    | _ => setUTCRaw k.base loc args
+  (raw.map (UTC z)).bind TimeClip
+
+def runLocalSetters (z : Zone) (tv : TV) : List (LSetter × List FV) → TV × List TV
+  | [] => (tv, [])
+  | (k, a) :: rest =>
+    let tv' := setLocal z k tv a
+    let (fin, rs) := runLocalSetters z tv' rest
+    (fin, tv' :: rs)
+
+/-- §15.9.3.1 new Date(year, month [, date [, hours [, minutes [, seconds [, ms]]]]]): TimeClip(UTC(MakeDate(…))) -/
+def dateLocal (z : Zone) (args : List FV) : TV := ((dateUTCRaw args).map (UTC z)).bind TimeClip
+
 -- §15.9.1.15 / §15.9.5.43 -------------------------------------------------------------
 
 /-- `w` decimal digits of n (most significant first), as ASCII bytes -/
@@ -304,5 +385,30 @@ def toJSON (tv : TV) : Str :=
 
 /-- Date.parse(x.toISOString()) = x.valueOf() (§15.9.4.2) -/
 def parseOfISO (t : Int) : TV := some t
+
+-- §15.9.1.15 Date.parse on `YYYY-MM-DDTHH:mm[:ss[.sss]](Z|±HH:mm)` -----------------------------------
+
+/-- the element values the format allows: MM 01–12, DD 01–(days of the month), HH 00–24 with 24 only as 24:00:00.000,
+    mm 00–59, ss 00–59; offset HH 00–23 (24 is avoided by the generator), mm 00–59.  Illegal values give NaN. -/
+def parseFields (y mo dd hh mi ss ms sg oh om : Int) : TV :=
+  let dim := MakeDay y mo 1 - MakeDay y (mo - 1) 1
+  if mo < 1 ∨ 12 < mo ∨ dd < 1 ∨ dd > dim ∨ hh > 24 ∨ (hh = 24 ∧ (mi ≠ 0 ∨ ss ≠ 0 ∨ ms ≠ 0)) ∨ mi ≥ 60 ∨ ss ≥ 60 ∨ oh ≥ 24 ∨ om ≥ 60 then none
+  else TimeClip (MakeDate (MakeDay y (mo - 1) dd) (MakeTime hh mi ss ms) - sg * ((oh * 60 + om) * 60000))
+
+/-- x.valueOf() = Date.parse(x.toUTCString()) = Date.parse(x.toString()) when the milliseconds are zero (§15.9.4.2) -/
+def parseOfUTCString (tv : TV) : TV := tv
+
+inductive Prim | numFinite | numNaN | numInf | strNonNumeric | strNumeric | undef | boolTrue
+deriving DecidableEq, Repr
+inductive JsonOut | null | called | typeError
+deriving DecidableEq, Repr
+
+/-- §15.9.5.44: null only if ToPrimitive(O, Number) is a Number that is not finite; else call toISOString
+    (TypeError if it is not callable) -/
+def toJSONGeneric (p : Prim) (isoCallable : Bool) : JsonOut :=
+  match p with
+  | .numNaN => .null
+  | .numInf => .null
+  | _ => if isoCallable then .called else .typeError
 
 end OttoVerif.C12.Spec
